@@ -46,7 +46,6 @@ def build():
                    'source_tuple.3 == 2 || source_tuple.3 == 3', '1 <= source_tuple.4 && source_tuple.4 < p1', 'source_tuple.5 < p1'],
          ensures=['exists |idx: Seq<int>, ks: Seq<int>| #[trigger] enc_idx_ok(idx, ks, source_tuple, lt_symbols as int, pi_symbols as int, p1 as int) && trace_is(final(verif_trace)@, idx)'],
          loops=loops,
-         append='proof { assert(b0 == source_tuple.2 as int && b10 == source_tuple.5 as int && a == source_tuple.1 && a1 == source_tuple.4 && d == source_tuple.0 && d1 == source_tuple.3);'
-                ' assert(idx.len() == d + d1 && ks.len() == d1 as int); assert(enc_idx_ok(idx, ks, source_tuple, lt_symbols as int, pi_symbols as int, p1 as int)); }')
+         append='proof { ' + v_encinto.final_steps('lt_symbols as int', 'pi_symbols as int', 'p1 as int') + ' }')
     u.raw('} // verus!')
     return u
